@@ -256,7 +256,14 @@ def run(ctx):
     if fcases:
         ctx.sample({"script": lines[0][:160], "impl": impl[0][:240]})
     for sc in scenarios:
-        out = fc.run_scenario(sc)
+        try:
+            out = fc.run_scenario(sc)
+        except Exception as e:                       # an exception escaping from one case must not end the run
+            import traceback
+            ctx.disagree("harness exception in one end-to-end scenario (recorded, run continues)", {"kind": "grid", "sc": sc},
+                         traceback.format_exc()[-600:], None)
+            ctx.count("scenario-exception:" + type(e).__name__)
+            continue
         grid_monitor(ctx, sc, out)
         ctx.sample({"scenario": sc, "outcome": out.get("groups"), "good": out.get("good")}, limit=8)
     for sc in late:
